@@ -115,6 +115,11 @@ def cases(tier, seed):
     for perm in [(1, 2, 3, 0), (3, 0, 2, 1), (2, 3, 0, 1)]:
         add("ps.kron", dict(perm=list(perm), rdims=[2, 3, 2, 2], cdims=[3, 2, 1, 2], entries="complex", seed=seed), "permute_systems/kron")
     add("ps.index", dict(kind="matrix", perm=[1, 2, 0], row_only=False, inv=False, dimform="2row", rdims=[2, 3, 2], cdims=[3, 2, 2], defaults=True), "permute_systems/defaults")
+    # scipy-sparse state vectors (N x 1 columns), two and three subsystems
+    for rd_, perm_ in (([2, 3], [1, 0]), ([2, 3, 2], [1, 2, 0]), ([2, 2, 3], [2, 0, 1])):
+        for kind_ in ("column",):
+            for inv in (False, True):
+                add("ps.index", dict(kind=kind_, perm=perm_, row_only=False, inv=inv, dimform="list", rdims=rd_, cdims=rd_, entries="float", sparse=True), "permute_systems/%s/sparse" % kind_)
     # Boolean flags written as 0 / 1 or as numpy bools
     for ff in ("int", "npbool"):
         for ro in (False, True):
